@@ -226,6 +226,19 @@ static void insert_one(S&& s, const ItemV& it, Cont cont)
     case 'd':
         cont(std::forward<S>(s) << std::stod(it.text));
         break;
+    case 'a':
+    {
+        // a fixed-size character buffer that is only partly filled (a name field, the result of snprintf):
+        // its stream representation is the text up to the terminating NUL
+        char buf[24] = {};
+        it.text.copy(buf, sizeof(buf) - 1);
+        const char(&cbuf)[24] = buf;
+        if (it.text.size() % 2)
+            cont(std::forward<S>(s) << cbuf);
+        else
+            cont(std::forward<S>(s) << buf);
+        break;
+    }
     case 'x':
         cont(std::forward<S>(s) << SetsFail{});
         break;
